@@ -357,7 +357,9 @@ class Check:
         for name, s in self.suites.items():
             if s['disagreements']:
                 self.broken.append({'kind': 'correspondence', 'name': name,
-                                    'detail': json.dumps(s['first'][:2], default=repr)[:1500]})
+                                    'detail': json.dumps(s['first'][:2], default=repr)[:1500],
+                                    # in full, so that the disagreement can be re-run from the replay file
+                                    'first': s['first'][:2]})
         exit_code = 0
         lines = []
         for key, what in self.known_hits:
